@@ -18,12 +18,28 @@
    The theorems of the first part are stated for any source satisfying good_view / src_total;
    C13_contract proves that contract for every constructed source (by induction on the term),
    and the `_constructed` theorems at the end restate the main results with no hypothesis on
-   the source other than `constructed`. *)
+   the source other than `constructed`.
+   Session 3 (Model/TransformG.v, Proofs/C13GenP.v): the TensorView methods and tensor_equality /
+   tensor_similarity are generic in the source; `gsrc A` = (view_shape, get_reference) is an
+   abstract TensorRef source and g_map / g_reorder / g_equality / ... the same transcriptions
+   written against it.  `of_tsrc s` embeds the source terms, `of_cview c store` every constructed
+   view of the C02 algebra (Model/Views.v: also TensorIndex, TensorExpansion, TensorStack,
+   TensorChain, wrappers, matrix-backed leaves, at any depth) over leaf storage `store`.
+     g_contract g    the TensorRef contract of an abstract source (valid shape, element count
+                     within usize, an element at every in-range index)
+     g_equiv g s     g exposes the shape and the in-range elements of the source term s
+   C13_generic_is_model: on source terms the generic transcriptions are those of Model/Transform.v;
+   C13_c02_view_meets_contract: every constructed C02 view meets g_contract (by C02's theorems);
+   the `_over_any_source` theorems: materialise / equality / similarity for EVERY source meeting
+   the contract, hence for every C02 view term.  Hypothesis kept explicit there:
+   elements (view shape) <= usize::MAX (a view whose index space exceeds usize cannot be
+   materialised at all), and `store` covers the leaves. *)
 From Coq Require Import List ZArith NArith Bool Arith.
 From EasyML Require Import Base.Sx Model.Shape Model.Tensor Model.TSource Model.ShapeIter
-  Model.Transform Proofs.ShapeP Proofs.C01P Proofs.OdometerP Proofs.C09P Proofs.C13P Proofs.C13bP
-  Proofs.SwapLoopP Proofs.C13SymP Proofs.C09OwnedP Proofs.C13MutP Proofs.SrcWfP Proofs.SrcLensP
-  Proofs.C13CtorP.
+  Model.Transform Model.TransformG Proofs.ShapeP Proofs.C01P Proofs.OdometerP Proofs.C09P Proofs.C13P
+  Proofs.C13bP Proofs.SwapLoopP Proofs.C13SymP Proofs.C09OwnedP Proofs.C13MutP Proofs.SrcWfP
+  Proofs.SrcLensP Proofs.C13CtorP Proofs.C13GenP.
+From EasyML Require Model.Views Proofs.C02P.
 Import ListNotations.
 Open Scope N_scope.
 
@@ -348,6 +364,138 @@ Theorem C13_similar_sym_constructed : forall A (eqb : A -> A -> bool),
   tensor_similarity eqb l r = tensor_similarity eqb r l.
 Proof. exact @ctor_similarity_sym. Qed.
 
+(* ---------------- session 3: any TensorRef source, in particular every C02 view ---------------- *)
+
+(* on the source terms of Model/TSource.v the generic transcriptions are the model's *)
+Theorem C13_generic_is_model : forall A (s : tsrc A), NoDup (names_of (src_shape s)) ->
+  g_iter_values (of_tsrc s) = iter_values s /\ g_iter_indexed (of_tsrc s) = iter_indexed s /\
+  (forall B (f : A -> B), g_map f (of_tsrc s) = view_map f s) /\
+  (forall B (f : list N -> A -> B), g_map_with_index f (of_tsrc s) = view_map_with_index f s) /\
+  (forall dims, length dims = length (src_shape s) ->
+     g_reorder (of_tsrc s) dims = reorder s dims /\ g_transpose (of_tsrc s) dims = transpose s dims).
+Proof. exact @gen_ops_on_terms. Qed.
+
+Theorem C13_generic_is_model_binary : forall A (l r : tsrc A) (eqb : A -> A -> bool),
+  NoDup (names_of (src_shape l)) -> NoDup (names_of (src_shape r)) ->
+  (forall f, g_elementwise f (of_tsrc l) (of_tsrc r) = view_elementwise f l r) /\
+  (forall f, g_elementwise_with_index f (of_tsrc l) (of_tsrc r) = view_elementwise_with_index f l r) /\
+  g_equality eqb (of_tsrc l) (of_tsrc r) = tensor_equality eqb l r /\
+  (length (src_shape l) = length (src_shape r) ->
+   g_similarity eqb (of_tsrc l) (of_tsrc r) = tensor_similarity eqb l r).
+Proof. exact @gen_binary_on_terms. Qed.
+
+(* the operations observe a source through its view_shape and in-range elements only: every
+   abstract source meeting the contract is indistinguishable from a CONSTRUCTED source term (the
+   tensor of its elements), so all `_constructed` theorems above transfer to it *)
+Theorem C13_contract_has_constructed_standin : forall A (g : gsrc A), g_contract g ->
+  exists s, constructed s /\ g_equiv g s /\
+    (forall B (f : A -> B), g_map f g = view_map f s) /\
+    (forall dims, length dims = length (src_shape s) -> g_reorder g dims = reorder s dims) /\
+    (forall eqb (g' : gsrc A) s', g_equiv g' s' -> g_equality eqb g g' = tensor_equality eqb s s').
+Proof.
+  intros A g Hc. destruct (contract_standin g Hc) as [s [Hs He]]. exists s.
+  split; [exact Hs|]. split; [exact He|]. split; [intros B f; apply (equiv_map g s He)|].
+  split; [intros dims Hl; apply (equiv_reorder g s He (standin_nodup g s Hc He) dims Hl)|].
+  intros eqb g' s' He'. apply (equiv_equality g g' s s' He He').
+Qed.
+
+(* every constructed view of the C02 algebra (any term, any depth) over covering leaf storage meets
+   the TensorRef contract C13 needs -- from C02_wf, C02_present_iff and C02_resolves_in_bounds *)
+Theorem C13_c02_view_meets_contract : forall A v c (store : N * N -> option A),
+  Views.v_ctor v = Ok c -> C02P.usize_view c -> elements (Views.c_shape c) <= usize_max ->
+  (forall l n off, In (l, n) (Views.c_leaves c) -> off < n -> exists x, store (l, off) = Some x) ->
+  g_contract (of_cview c store).
+Proof. exact @cview_contract. Qed.
+
+(* materialisation, for every source meeting the contract *)
+Theorem C13_map_over_any_source : forall A B (f : A -> B) (g : gsrc A), g_contract g ->
+  exists t, g_map f g = Ok t /\
+            materialises t (gs_shape g) (fun idx => option_map f (gs_get g idx)).
+Proof. exact @gen_map_materialises. Qed.
+
+Theorem C13_map_with_index_over_any_source : forall A B (f : list N -> A -> B) (g : gsrc A),
+  g_contract g ->
+  exists t, g_map_with_index f g = Ok t /\
+            materialises t (gs_shape g) (fun idx => option_map (f idx) (gs_get g idx)).
+Proof. exact @gen_map_with_index_materialises. Qed.
+
+Theorem C13_reorder_over_any_source : forall A (g : gsrc A) dims,
+  g_contract g -> length dims = length (gs_shape g) ->
+  match dm_new (names_of (gs_shape g)) dims with
+  | Some tbl => exists t, g_reorder g dims = Ok t /\
+                          materialises t (gs_shape (g_access g tbl)) (gs_get (g_access g tbl))
+  | None => g_reorder g dims = Panic
+  end.
+Proof. exact @gen_reorder. Qed.
+
+Theorem C13_transpose_over_any_source : forall A (g : gsrc A) dims,
+  g_contract g -> length dims = length (gs_shape g) ->
+  match dm_new (names_of (gs_shape g)) dims with
+  | Some tbl => exists t, g_transpose g dims = Ok t /\
+      materialises t (with_names_of (gs_shape g) (gs_shape (g_access g tbl))) (gs_get (g_access g tbl))
+  | None => g_transpose g dims = Panic
+  end.
+Proof. exact @gen_transpose. Qed.
+
+Theorem C13_elementwise_over_any_sources : forall A (f : A -> A -> A) (l r : gsrc A),
+  g_contract l -> g_contract r ->
+  (gs_shape l = gs_shape r ->
+   exists t, g_elementwise f l r = Ok t /\
+     materialises t (gs_shape l)
+       (fun idx => match gs_get l idx, gs_get r idx with Some x, Some y => Some (f x y) | _, _ => None end)) /\
+  (gs_shape l <> gs_shape r -> g_elementwise f l r = Panic).
+Proof. exact @gen_elementwise. Qed.
+
+(* equality and similarity, for every pair of sources meeting the contract (views of any kind,
+   tensors, mixed pairs) *)
+Theorem C13_eq_iff_over_any_sources : forall A (eqb : A -> A -> bool),
+  (forall x y, eqb x y = true <-> x = y) ->
+  forall l r : gsrc A, g_contract l -> g_contract r ->
+  (g_equality eqb l r = true <->
+   gs_shape l = gs_shape r /\
+   forall idx, in_range idx (lens_of (gs_shape l)) -> gs_get l idx = gs_get r idx).
+Proof. exact @gen_equality_iff. Qed.
+
+Theorem C13_similar_iff_over_any_sources : forall A (eqb : A -> A -> bool),
+  (forall x y, eqb x y = true <-> x = y) ->
+  forall l r : gsrc A, g_contract l -> g_contract r -> length (gs_shape l) = length (gs_shape r) ->
+  (g_similarity eqb l r = true <->
+   exists tbl, dm_new (names_of (gs_shape r)) (names_of (gs_shape l)) = Some tbl /\
+     gs_shape l = gs_shape (g_access r tbl) /\
+     forall idx, in_range idx (lens_of (gs_shape l)) -> gs_get l idx = gs_get (g_access r tbl) idx).
+Proof. exact @gen_similarity_iff. Qed.
+
+Theorem C13_similar_sym_over_any_sources : forall A (eqb : A -> A -> bool),
+  (forall x y, eqb x y = true <-> x = y) ->
+  forall l r : gsrc A, g_contract l -> g_contract r -> length (gs_shape l) = length (gs_shape r) ->
+  g_similarity eqb l r = g_similarity eqb r l.
+Proof. exact @gen_similarity_sym. Qed.
+
+(* non-vacuity of the session-3 statements: a TensorStack of a TensorExpansion and a reversed
+   TensorIndex selection (none of which is a source term of Model/TSource.v) meets the contract and
+   is materialised by map *)
+Example C13_nonvacuous_over_c02_view :
+  let v := Views.VStack [ Views.VExpand (Views.VTensor 1 [(0%nat, 2)]) [(1%nat, 5%nat)];
+                          Views.VReverse (Views.VIndex (Views.VTensor 2 [(0%nat, 2); (5%nat, 1); (3%nat, 3)])
+                                                       [(3%nat, 2)]) [0%nat] ] 0%nat 7%nat in
+  exists c, Views.v_ctor v = Ok c /\
+    g_contract (of_cview c (fun e => Some (Views.leaf_value e))) /\
+    exists t, g_map (fun x => x) (of_cview c (fun e => Some (Views.leaf_value e))) = Ok t /\
+      t_shape t = [(7%nat, 2); (0%nat, 2); (5%nat, 1)] /\ t_data t = [1000; 1001; 2005; 2002]%Z.
+Proof.
+  cbv zeta.
+  set (v := Views.VStack _ _ _).
+  assert (E : exists c, Views.v_ctor v = Ok c) by (eexists; vm_compute; reflexivity).
+  destruct E as [c E]. exists c. split; [exact E|].
+  pose proof E as E'. vm_compute in E'. injection E' as Ec. subst c.
+  split.
+  - apply (C13_c02_view_meets_contract Z v _ _ E).
+    + cbn. repeat split.
+    + vm_compute. discriminate.
+    + intros l n off _ _. eexists. reflexivity.
+  - eexists. split; [vm_compute; reflexivity|]. split; reflexivity.
+Qed.
+
 (* non-vacuity: a 3x3 tensor (the square in-place path) and a 2x3 tensor (the fallback) meet the
    hypotheses; the exchanged ordering really transposes; a permuted copy is similar, not equal *)
 Example C13_nonvacuous :
@@ -429,3 +577,15 @@ Print Assumptions C13_map_mut_with_index_constructed.
 Print Assumptions C13_eq_iff_constructed.
 Print Assumptions C13_similar_iff_constructed.
 Print Assumptions C13_similar_sym_constructed.
+Print Assumptions C13_generic_is_model.
+Print Assumptions C13_generic_is_model_binary.
+Print Assumptions C13_contract_has_constructed_standin.
+Print Assumptions C13_c02_view_meets_contract.
+Print Assumptions C13_map_over_any_source.
+Print Assumptions C13_map_with_index_over_any_source.
+Print Assumptions C13_reorder_over_any_source.
+Print Assumptions C13_transpose_over_any_source.
+Print Assumptions C13_elementwise_over_any_sources.
+Print Assumptions C13_eq_iff_over_any_sources.
+Print Assumptions C13_similar_iff_over_any_sources.
+Print Assumptions C13_similar_sym_over_any_sources.
